@@ -77,6 +77,10 @@ enum Op {
     Close,
     /// the local half-close (`MuxStream::do_shutdown`, `&self`) performed by the other thread
     Shutdown,
+    /// the flow is closed the way the connection task does it: its slot is in the flow table and `Task::close_flow(id, inhibit_rst)`
+    /// removes it (`true`: the peer's Reset arrived; `false`: the task gives the flow up itself - the peer overran the window, or the
+    /// handle's drop notification arrived) - whatever the reason, a writer waiting for credit has to be woken and fail
+    CloseFlow(bool),
 }
 
 #[derive(Clone, Debug, PartialEq, Eq, Hash)]
@@ -91,19 +95,19 @@ struct Scenario {
 
 impl Scenario {
     fn encode(&self) -> String {
-        let ops: Vec<String> = self.ops.iter().map(|o| match o { Op::Ack(n) => format!("a{n}"), Op::Close => "c".into(), Op::Shutdown => "s".into() }).collect();
+        let ops: Vec<String> = self.ops.iter().map(|o| match o { Op::Ack(n) => format!("a{n}"), Op::Close => "c".into(), Op::Shutdown => "s".into(), Op::CloseFlow(i) => format!("f{}", u8::from(*i)) }).collect();
         format!("{}:{}:{}:{}", self.c0, self.want, self.writers, ops.join(","))
     }
     fn decode(s: &str) -> Scenario {
         let p: Vec<&str> = s.split(':').collect();
-        let ops = p[3].split(',').filter(|x| !x.is_empty()).map(|x| if x == "c" { Op::Close } else if x == "s" { Op::Shutdown } else { Op::Ack(x[1..].parse().unwrap()) }).collect();
+        let ops = p[3].split(',').filter(|x| !x.is_empty()).map(|x| if x == "c" { Op::Close } else if x == "s" { Op::Shutdown } else if x.starts_with('f') { Op::CloseFlow(x == "f1") } else { Op::Ack(x[1..].parse().unwrap()) }).collect();
         Scenario { c0: p[0].parse().unwrap(), want: p[1].parse().unwrap(), writers: p[2].parse().unwrap(), ops }
     }
     fn grants(&self) -> u32 {
         self.ops.iter().map(|o| if let Op::Ack(n) = o { *n } else { 0 }).sum()
     }
     fn closes(&self) -> bool {
-        self.ops.contains(&Op::Close)
+        self.ops.iter().any(|o| matches!(o, Op::Close | Op::CloseFlow(_)))
     }
     fn shuts(&self) -> bool {
         self.ops.contains(&Op::Shutdown)
@@ -128,7 +132,15 @@ fn execute(sc: &Scenario) {
     let rng = rand::rngs::SmallRng::seed_from_u64(1);
     let (_mux, taskdata) = Multiplexor::new_detailed::<_, NoClock>(DummyWs, Options::new().rwnd(8), rng);
     // the real constructor of a stream and of its connection-task half
-    let (stream, stream_data) = taskdata.task.new_stream_shared(0x1234, sc.c0, bytes::Bytes::new(), 0);
+    let crate::task::TaskData { task, tx_msg_rx: _keep_rx, dropped_flows_rx: _keep_drx } = taskdata;
+    let (stream, stream_data) = task.new_stream_shared(0x1234, sc.c0, bytes::Bytes::new(), 0);
+    // scenarios that close the flow through the task keep the task's half where the task keeps it: in the flow table
+    let via_table = sc.ops.iter().any(|o| matches!(o, Op::CloseFlow(_)));
+    let mut stream_data = Some(stream_data);
+    if via_table {
+        task.flows.write().insert(0x1234, crate::FlowSlot::Established(stream_data.take().unwrap()));
+    }
+    let task = std::sync::Arc::new(task);
     let stream = std::sync::Arc::new(stream);
     let sent_total = std::sync::Arc::new(AtomicU64::new(0));
     let trace = std::sync::Arc::new(StdMutex::new(Vec::<u8>::new()));
@@ -190,19 +202,31 @@ fn execute(sc: &Scenario) {
     let ops = sc.ops.clone();
     let trace2 = trace.clone();
     let stream2 = stream.clone();
+    let task2 = task.clone();
     let other = shuttle::thread::spawn(move || {
         for op in ops {
             match op {
+                Op::Ack(n) if via_table => {
+                    // as `process_frame` does it: look the flow up under the read lock
+                    if let Some(crate::FlowSlot::Established(d)) = task2.flows.read().get(&0x1234) {
+                        d.acknowledge(n);
+                    }
+                    trace2.lock().unwrap().push(b'a');
+                }
+                Op::CloseFlow(inhibit_rst) => {
+                    task2.close_flow(0x1234, inhibit_rst);
+                    trace2.lock().unwrap().push(b'f');
+                }
                 Op::Shutdown => {
                     stream2.do_shutdown();
                     trace2.lock().unwrap().push(b's');
                 }
                 Op::Ack(n) => {
-                    stream_data.acknowledge(n);
+                    stream_data.as_ref().expect("direct mode").acknowledge(n);
                     trace2.lock().unwrap().push(b'a');
                 }
                 Op::Close => {
-                    stream_data.disallow_write();
+                    stream_data.as_mut().expect("direct mode").disallow_write();
                     trace2.lock().unwrap().push(b'c');
                 }
             }
@@ -277,6 +301,14 @@ fn scenarios(thorough: bool) -> Vec<Scenario> {
                             // the hand-off variant (see `execute`) for the scenarios that start without credit
                             if sc.c0 == 0 && sc.want <= 2 {
                                 v.push(Scenario { writers: 11, ..sc.clone() });
+                            }
+                            // the same close performed by the connection task's own `close_flow` (peer Reset / flow given up)
+                            if closes_last && sc.ops.len() <= 2 && !sc.shuts() {
+                                for inhibit in [false, true] {
+                                    let mut ops = sc.ops.clone();
+                                    *ops.last_mut().unwrap() = Op::CloseFlow(inhibit);
+                                    v.push(Scenario { ops, ..sc.clone() });
+                                }
                             }
                             v.push(sc);
                         }
@@ -477,7 +509,7 @@ fn verif_c12() {
     let wall = t0.elapsed().as_secs_f64();
     let samples_json: Vec<String> = samples.iter().map(|s| format!("{{\"scenario_c0_want_writers_ops\": \"{s}\"}}")).collect();
     let ev = format!(
-        "{{\n \"property_id\": \"{prop}\",\n \"tier\": \"{tier}\",\n \"seed\": {},\n \"level\": \"exploration\",\n \"coverage\": {{\n  \"evaluations\": {runs},\n  \"distinct_nontrivial\": {distinct},\n  \"rule\": \"scenarios = initial credit 0..2 x frames wanted 1..3 (one writer thread, polling again after every wake-up) x every list of <= {} operations over {{acknowledge(n), disallow_write (close by the connection task), do_shutdown (local half-close)}} performed by another thread that lets the writers terminate, plus two threads polling the same stream concurrently without waiting (credit clause only; initial credit 0..2 x 1..2 polls each x <= 2 operations) ({} scenarios in total); each scenario explored under shuttle's random scheduler ({iters_random} schedules) and PCT with depth 2 and 3 ({iters_pct} schedules each), seeded from VERIF_SEED; every access to the credit counter, the finish flag and the waker is a scheduling point. evaluations = executions (schedules) run; non-trivial = an execution in which a writer's poll returned Pending (it had to be woken by the other thread); distinct = distinct (scenario, event trace) pairs among those.\",\n  \"samples\": [{}],\n  \"scenarios\": {},\n  \"executions_with_blocked_writer\": {blocked},\n  \"exhaustive\": false\n }},\n \"assumptions\": [\"shuttle explores interleavings at atomic-operation granularity under sequential consistency; reorderings only allowed by the C11 memory model for Relaxed accesses are not explored\", \"the code under test (stream.rs, lib.rs, task.rs) is compiled unmodified from /repo's working tree; only the loom dependency is redirected to a shuttle-backed facade and this test module is added in a scratch copy\", \"the AtomicWaker of the facade is a mutex-protected Option<Waker> with the documented register/wake contract\"],\n \"wall_s\": {:.3},\n \"violations\": {violations}\n}}\n",
+        "{{\n \"property_id\": \"{prop}\",\n \"tier\": \"{tier}\",\n \"seed\": {},\n \"level\": \"exploration\",\n \"coverage\": {{\n  \"evaluations\": {runs},\n  \"distinct_nontrivial\": {distinct},\n  \"rule\": \"scenarios = initial credit 0..2 x frames wanted 1..3 (one writer thread, polling again after every wake-up) x every list of <= {} operations over {{acknowledge(n), disallow_write (close by the connection task; also performed through the task's own close_flow(id, inhibit_rst) with the flow in the flow table), do_shutdown (local half-close)}} performed by another thread that lets the writers terminate, plus two threads polling the same stream concurrently without waiting (credit clause only; initial credit 0..2 x 1..2 polls each x <= 2 operations) ({} scenarios in total); each scenario explored under shuttle's random scheduler ({iters_random} schedules) and PCT with depth 2 and 3 ({iters_pct} schedules each), seeded from VERIF_SEED; every access to the credit counter, the finish flag and the waker is a scheduling point. evaluations = executions (schedules) run; non-trivial = an execution in which a writer's poll returned Pending (it had to be woken by the other thread); distinct = distinct (scenario, event trace) pairs among those.\",\n  \"samples\": [{}],\n  \"scenarios\": {},\n  \"executions_with_blocked_writer\": {blocked},\n  \"exhaustive\": false\n }},\n \"assumptions\": [\"shuttle explores interleavings at atomic-operation granularity under sequential consistency; reorderings only allowed by the C11 memory model for Relaxed accesses are not explored\", \"the code under test (stream.rs, lib.rs, task.rs) is compiled unmodified from /repo's working tree; only the loom dependency is redirected to a shuttle-backed facade and this test module is added in a scratch copy\", \"the AtomicWaker of the facade is a mutex-protected Option<Waker> with the documented register/wake contract\"],\n \"wall_s\": {:.3},\n \"violations\": {violations}\n}}\n",
         seed as i64,
         if thorough { 3 } else { 2 },
         scs.len(),
